@@ -452,7 +452,8 @@ contract(Contract(
     types={"seen": "refset", "pos": "refmap:int", "result": "list[ref:Path]", "p": "ref:Path", "resolved": "ref:Path",
            "found": "ref:Path", "raw_path": "str"},
     ghost={"pos": "{}"},
-    hooks=[("after", "call:result.append", "pos[resolved] = len(result) - 1")],
+    # (the appended value itself, not the local it happens to be called by)
+    hooks=[("after", "call:result.append", "pos[result[len(result) - 1]] = len(result) - 1")],
     calls={
         "Path": Callee("uf", ret="ref:Path", sig=["p"]),
         "Path.is_file": Callee("uf", ret="bool", sig=["self"]),
